@@ -28,7 +28,9 @@ func main() {
 		{Name: "und-traverse", Gen: genUndTraverse},
 		{Name: "und-color", Gen: genUndColor},
 		{Name: "dir-flow5", Gen: genDirFlow5},
+		{Name: "dir-topo5", Gen: genDirTopo5},
 		{Name: "und-color-hard", Gen: genUndColorHard},
+		{Name: "und-color-sweep7", Gen: genUndColorSweep7},
 		{Name: "dir-intervals5", Gen: genDirIntervals5},
 	}
 	// The tomita build tag only changes the pivot choice of
@@ -94,43 +96,44 @@ func sizeOutcome(s *gspec, extra string) string {
 
 func genDirTopo(g *vlib.G) {
 	forDirected(g, 4, func(key string, s gspec) {
-		g.Case(key, func(t *vlib.T) {
-			s := s
-			classes, comp := s.sccs()
-			cycles := s.elementaryCycles()
-			for idk := 0; idk < nIDMaps; idk++ {
-				var stab [2]string
-				for v := 0; v < nVariants; v++ {
-					b := build(&s, idk, v)
-					run(t, "dir-topo", key, idk, v, func(c *chk) {
-						directedTopo(c, b, classes, comp, cycles, &stab)
-					})
-				}
-			}
-			if s.n >= 2 && s.edges() >= 1 {
-				t.Nontrivial()
-			}
-			t.Outcome(fmt.Sprintf("n=%d sccs=%d cycles=%d", s.n, len(classes), min(len(cycles), 9)))
-			t.Detail(s.String())
-		})
+		g.Case(key, func(t *vlib.T) { dirTopoCase(t, "dir-topo", key, s, allCombos) })
 	})
+}
+
+// dirTopoCase runs the directed topo checks under the plan; realisations
+// that share an ID map must produce the same stabilised sort.
+func dirTopoCase(t *vlib.T, group, key string, s gspec, plan []combo) {
+	classes, comp := s.sccs()
+	cycles := s.elementaryCycles()
+	var stab [nIDMaps][2]string
+	for _, cb := range plan {
+		b := build(&s, cb.idk, cb.v)
+		run(t, group, key, cb.idk, cb.v, func(c *chk) {
+			directedTopo(c, b, classes, comp, cycles, &stab[cb.idk])
+		})
+	}
+	if s.n >= 2 && s.edges() >= 1 {
+		t.Nontrivial()
+	}
+	t.Outcome(fmt.Sprintf("n=%d sccs=%d cycles=%d", s.n, len(classes), min(len(cycles), 9)))
+	t.Detail(s.String())
 }
 
 func genDirFlow(g *vlib.G) {
 	forDirected(g, 4, func(key string, s gspec) {
-		g.Case(key, func(t *vlib.T) { dirFlowCase(t, "dir-flow", key, s, -1, false) })
+		g.Case(key, func(t *vlib.T) { dirFlowCase(t, "dir-flow", key, s, -1, false, allCombos) })
 	})
 }
 
 func genDirIntervals(g *vlib.G) {
 	forDirected(g, 4, func(key string, s gspec) {
-		g.Case(key, func(t *vlib.T) { dirFlowCase(t, "dir-intervals", key, s, -1, true) })
+		g.Case(key, func(t *vlib.T) { dirFlowCase(t, "dir-intervals", key, s, -1, true, allCombos) })
 	})
 }
 
 // dirFlowCase checks dominators (every root, or only root onlyRoot when
 // >= 0) and intervals (every entry from which the whole graph is reachable).
-func dirFlowCase(t *vlib.T, group, key string, s gspec, onlyRoot int, doIntervals bool) {
+func dirFlowCase(t *vlib.T, group, key string, s gspec, onlyRoot int, doIntervals bool, plan []combo) {
 	var roots []int
 	var idoms [][maxN]int
 	var reach []uint8
@@ -166,21 +169,19 @@ func dirFlowCase(t *vlib.T, group, key string, s gspec, onlyRoot int, doInterval
 			maxIv = max(maxIv, len(h))
 		}
 	}
-	for idk := 0; idk < nIDMaps; idk++ {
-		for v := 0; v < nVariants; v++ {
-			b := build(&s, idk, v)
-			run(t, group, key, idk, v, func(c *chk) {
-				if !doIntervals {
-					dominators(c, b, roots, idoms, reach)
-					return
+	for _, cb := range plan {
+		b := build(&s, cb.idk, cb.v)
+		run(t, group, key, cb.idk, cb.v, func(c *chk) {
+			if !doIntervals {
+				dominators(c, b, roots, idoms, reach)
+				return
+			}
+			for k, r := range roots {
+				if reach[k] == s.all() {
+					intervals(c, b, r, ivs[k].heads, ivs[k].members, idoms[k])
 				}
-				for k, r := range roots {
-					if reach[k] == s.all() {
-						intervals(c, b, r, ivs[k].heads, ivs[k].members, idoms[k])
-					}
-				}
-			})
-		}
+			}
+		})
 	}
 	if (!doIntervals && nontrivialDom) || (doIntervals && maxIv >= 2) {
 		t.Nontrivial()
@@ -207,31 +208,63 @@ func forDirected5(g *vlib.G, quickStep, thoroughStep uint32, f func(key string, 
 	}
 }
 
-// genDirFlow5 extends the dominator checks to directed graphs on 5 nodes
+// plan5 is the realisation plan of the 5-node digraph sweeps: every graph of
+// the 2^20 in both tiers; two realisations each in quick, all twelve in thorough.
+func plan5(g *vlib.G, mask uint32) []combo {
+	if g.Thorough() {
+		return allCombos
+	}
+	return twoCombos(mask)
+}
+
+// genDirFlow5 extends the dominator checks to all directed graphs on 5 nodes
 // with root 0 (beyond the declared <=4 bound: the interesting dominator and
 // interval shapes need five nodes).
 func genDirFlow5(g *vlib.G) {
-	forDirected5(g, 16, 1, func(key string, s gspec) {
-		g.Case(key, func(t *vlib.T) { dirFlowCase(t, "dir-flow5", key, s, 0, false) })
+	forDirected5(g, 1, 1, func(key string, s gspec) {
+		plan := plan5(g, s.mask)
+		g.Case(key, func(t *vlib.T) { dirFlowCase(t, "dir-flow5", key, s, 0, false, plan) })
 	})
 }
 
 func genDirIntervals5(g *vlib.G) {
-	forDirected5(g, 64, 2, func(key string, s gspec) {
-		g.Case(key, func(t *vlib.T) { dirFlowCase(t, "dir-intervals5", key, s, 0, true) })
+	forDirected5(g, 1, 1, func(key string, s gspec) {
+		plan := plan5(g, s.mask)
+		g.Case(key, func(t *vlib.T) { dirFlowCase(t, "dir-intervals5", key, s, 0, true, plan) })
 	})
 }
 
+// genDirTopo5 extends the SCC / topological sort / cycle enumeration checks
+// to directed graphs on 5 nodes (quick: a fixed quarter, thorough: all).
+func genDirTopo5(g *vlib.G) {
+	forDirected5(g, 4, 1, func(key string, s gspec) {
+		plan := twoCombos(s.mask)
+		if g.Thorough() {
+			plan = oneMapCombos(s.mask)
+		}
+		g.Case(key, func(t *vlib.T) { dirTopoCase(t, "dir-topo5", key, s, plan) })
+	})
+}
+
+// undPlan is the realisation plan of an undirected graph: everything up to
+// 5 nodes and in the thorough tier; 6-node graphs in the quick tier run under
+// one ID map (chosen by the mask) with all four implementations.
+func undPlan(g *vlib.G, s *gspec) []combo {
+	if g.Thorough() || s.n <= 5 {
+		return allCombos
+	}
+	return oneMapCombos(s.mask)
+}
+
 func genUndTopo(g *vlib.G) {
-	forUndirected(g, undMax(g), func(key string, s gspec) {
+	forUndirected(g, 6, func(key string, s gspec) {
+		plan := undPlan(g, &s)
 		g.Case(key, func(t *vlib.T) {
 			s := s
 			o := newUndirOracle(&s)
-			for idk := 0; idk < nIDMaps; idk++ {
-				for v := 0; v < nVariants; v++ {
-					b := build(&s, idk, v)
-					run(t, "und-topo", key, idk, v, func(c *chk) { undirectedTopo(c, b, o) })
-				}
+			for _, cb := range plan {
+				b := build(&s, cb.idk, cb.v)
+				run(t, "und-topo", key, cb.idk, cb.v, func(c *chk) { undirectedTopo(c, b, o) })
 			}
 			if s.n >= 3 && s.edges() >= 2 {
 				t.Nontrivial()
